@@ -8,7 +8,6 @@ props/Cnn/check.py provides
 The parent process spawns `workers` worker processes (own proxy instance each); every worker runs
 Hypothesis with its own derived seed; results are merged into one evidence file.
 """
-from vlib.common import tier_params as common_tier_params
 import glob
 import importlib.util
 import json
@@ -23,6 +22,7 @@ if __name__ == "__main__":
 
 from vlib import build, native
 from vlib.common import NCPU, REPLAYS, RUN, VERIF, Outcome, load_known, load_meta, log, save_violation_case, sha
+from vlib.common import tier_params as common_tier_params
 
 
 class Result:
